@@ -196,11 +196,13 @@ def gen_shape(rng, sid, fn, force=None):
     return d
 
 
-def render(d):
+def render(d, scoped=False):
     f = FUNCS[d['fn']]
     args = ', '.join(matcher_text(k, f['argk'][i], vi) for i, (k, vi) in enumerate(d['matchers']))
     func_txt = '%s(%s)' % (f['name'], args)
     macro = {'ALLOW': 'NAMED_ALLOW_CALL', 'FORBID': 'NAMED_FORBID_CALL'}.get(d['bf'], 'NAMED_REQUIRE_CALL')
+    if scoped:
+        macro = macro[len('NAMED_'):]
     vform = d.get('vform', False)   # the C++11-style macros that take the modifiers as macro arguments
     s = '' if vform else '%s(m, %s)' % (macro, func_txt)
     with_inners = []
@@ -255,6 +257,7 @@ def main():
         f = FUNCS[fn]
         any_m = ['ANY'] * f['arity']
         val_m = ['VAL'] * f['arity'] if f['argk'][0] != 'uptr' else any_m
+        typed_m = ['TYPEDANY'] * f['arity']   # ANY(type) is a macro: the expectation text must show it as written
         base_rk = {'int': 'VAL', 'void': 'NONE', 'ref': 'REF_CELL', 'str': 'STR', 'cref': 'CREF_CAPT'}[f['ret']]
         forced = [
             dict(bf='DEFAULT', mk=any_m, nwith=0, nseq=0, nse=0, rk=base_rk),
@@ -264,6 +267,9 @@ def main():
             dict(bf='FORBID', mk=any_m, nwith=0),
             dict(bf='FORBID', mk=val_m, nwith=0),
             dict(bf='T0', mk=val_m, nwith=1),
+            dict(bf='ALLOW', mk=typed_m, nwith=0, nseq=0, nse=0, rk=base_rk, vform=False),
+            dict(bf='FORBID', mk=typed_m, nwith=0, vform=False),
+            dict(bf='DEFAULT', mk=typed_m, nwith=0, nseq=0, nse=1, rk=base_rk, vform=False),
             dict(bf='FORBID', mk=any_m, nwith=1, vform=True),
             dict(bf='ALLOW', mk=val_m, nwith=1, nseq=0, nse=1, rk=base_rk, vform=True),
             dict(bf='DEFAULT', mk=any_m, nwith=0, nseq=1, nse=0, rk=base_rk),
@@ -302,10 +308,20 @@ def main():
             lines.append('template <class M> EP shape_%d(M& m, Inst& x) {%s static_assert(__LINE__ == %d, "line"); sim::ignore(x); return %s; }'
                          % (d['id'], seqdecl, lineno, stmt))
             assert lines[-1].count('\n') == 0
+            d['sline'] = 0
+            if d['id'] % 3 == 0:
+                sstmt = render(d, scoped=True)
+                d['sline'] = len(lines) + 1
+                lines.append('template <class M> void sshape_%d(M& m, Inst& x, std::function<void()>& k) {%s static_assert(__LINE__ == %d, "line"); sim::ignore(x); %s; k(); }'
+                             % (d['id'], seqdecl, d['sline'], sstmt))
         lines.append('static const char* const this_file = __FILE__;')
         for d in tu:
-            lines.append('static ShapeReg reg_%d{%d, this_file, &maker<MockT<false>, &shape_%d<MockT<false>>>, &maker<MockT<true>, &shape_%d<MockT<true>>>};'
-                         % (d['id'], d['id'], d['id'], d['id']))
+            if d['sline']:
+                lines.append('static ShapeReg reg_%d{%d, this_file, &maker<MockT<false>, &shape_%d<MockT<false>>>, &maker<MockT<true>, &shape_%d<MockT<true>>>, &smaker<MockT<false>, &sshape_%d<MockT<false>>>, &smaker<MockT<true>, &sshape_%d<MockT<true>>>};'
+                             % (d['id'], d['id'], d['id'], d['id'], d['id'], d['id']))
+            else:
+                lines.append('static ShapeReg reg_%d{%d, this_file, &maker<MockT<false>, &shape_%d<MockT<false>>>, &maker<MockT<true>, &shape_%d<MockT<true>>>, nullptr, nullptr};'
+                             % (d['id'], d['id'], d['id'], d['id']))
         lines.append('}}')
         with open(os.path.join(out, 'shapes_%d.cpp' % k), 'w') as fh:
             fh.write('\n'.join(lines) + '\n')
@@ -325,9 +341,9 @@ def main():
         ses = ', '.join('true' if b else 'false' for b in d['ses'])
         while ses.count('e') < 3:
             ses += (', ' if ses else '') + 'false'
-        t.append('  {%d, %d, BF_%s, %dL, %dL, %d, %s, {%s}, %d, {%s}, %d, {%s}, RK_%s, %du, %d, %s},'
+        t.append('  {%d, %d, BF_%s, %dL, %dL, %d, %s, {%s}, %d, {%s}, %d, {%s}, RK_%s, %du, %du, %d, %s},'
                  % (d['id'], d['fn'], d['bf'], L, H, d['nseq'], 'true' if d['times_after_seq'] else 'false',
-                    ms, len(d['withs']), ws, len(d['ses']), ses, d['rk'], d['line'], d['tu'], cstr(d['text'])))
+                    ms, len(d['withs']), ws, len(d['ses']), ses, d['rk'], d['line'], d['sline'], d['tu'], cstr(d['text'])))
     t.append('};')
     t.append('const int shape_count = %d;' % len(shapes))
     t.append('}')
